@@ -241,6 +241,47 @@ def extract() -> dict:
             i += 1
     else:
         need(len(idx) == 0, "find_cache_meta: cached_options assigned more than once")
+    # --- import options of suppressed dependencies (State.suppressed_deps_opts, State.is_fresh, Options.dep_import_options)
+    pri = {}
+    for nm in ("PRI_HIGH", "PRI_MED", "PRI_LOW", "PRI_MYPY", "PRI_INDIRECT", "PRI_ALL"):
+        e = module_assign(bt, nm)
+        need(isinstance(e, ast.Constant) and isinstance(e.value, int) and 0 <= e.value < 1000, f"{nm} is not a small int literal")
+        pri[nm] = e.value
+    r["priorities"] = pri
+    f = find_func(bt, "suppressed_deps_opts", "State")
+    loops = [n for n in f.body if isinstance(n, ast.For)]
+    need(len(loops) == 1 and ast.unparse(loops[0].iter) == "sorted(self.suppressed)" and isinstance(loops[0].target, ast.Name),
+         "suppressed_deps_opts: expected one loop over sorted(self.suppressed)")
+    dv = loops[0].target.id
+    ifs = [n for n in loops[0].body if isinstance(n, ast.If)]
+    need(len(ifs) == 1 and not ifs[0].orelse, "suppressed_deps_opts: expected exactly one (priority) condition in the loop")
+    t = ifs[0].test
+    need(isinstance(t, ast.Compare) and len(t.ops) == 1 and isinstance(t.comparators[0], ast.Name) and t.comparators[0].id in pri,
+         "suppressed_deps_opts: condition is not `<priority> <op> PRI_x`: " + ast.unparse(t))
+    lhs = ast.unparse(t.left)
+    need(lhs in (f"self.priorities.get({dv})", f"self.priorities.get({dv}, PRI_HIGH)"), "suppressed_deps_opts: unexpected priority expression " + lhs)
+    r["sdo_default"] = "PRI_HIGH" if "PRI_HIGH" in lhs else "None"
+    ops = {ast.NotEq: "!=", ast.Lt: "<", ast.LtE: "<=", ast.Eq: "==", ast.Gt: ">", ast.GtE: ">="}
+    need(type(t.ops[0]) in ops, "suppressed_deps_opts: unsupported comparison operator")
+    r["sdo_op"] = ops[type(t.ops[0])]
+    r["sdo_bound"] = t.comparators[0].id
+    body = [ast.unparse(x) for x in ifs[0].body]
+    need(body == [f"write_str_bare(buf, {dv})", f"write_bytes_bare(buf, import_options[{dv}])", "write_int_bare(buf, reason)"],
+         "suppressed_deps_opts: recorded fields changed: " + repr(body))
+    f = find_func(bt, "is_fresh", "State")
+    src_ = ast.unparse(f)
+    need("self.dependencies == self.meta.dependencies" in src_, "is_fresh: dependencies comparison")
+    need("self.meta.suppressed_deps_opts == self.suppressed_deps_opts()" in src_, "is_fresh no longer compares suppressed_deps_opts")
+    r["is_fresh_escape"] = sorted(option_reads(f, names))
+    f = find_func(ot, "dep_import_options", "Options")
+    wr = []
+    for n in ast.walk(f):
+        if isinstance(n, ast.Call) and isinstance(n.func, ast.Name) and n.func.id.startswith("write_") and len(n.args) == 2:
+            a1 = n.args[1]
+            need(isinstance(a1, ast.Attribute) and ast.unparse(a1.value) == "self" and a1.attr in names, "dep_import_options: unexpected written value")
+            wr.append(a1.attr)
+    need(len(wr) >= 1, "dep_import_options writes nothing")
+    r["import_option_names"] = wr
     # the comparison must precede every `return` of a found meta
     # --- cache location
     r["cache_dir_reads"] = sorted(option_reads(find_func(bt, "_cache_dir_prefix"), names))
@@ -342,7 +383,7 @@ def slist(xs) -> str:
 def generate() -> dict[str, str]:
     r = extract()
     L = ["(* GENERATED from mypy/options.py, mypy/build.py, mypy/errors.py by tools/extractors/t09.py -- do not edit; regenerated on every run *)",
-         "From Coq Require Import List String Bool.", "Import ListNotations.", "Open Scope string_scope.", ""]
+         "From Coq Require Import List String Bool Arith.", "Import ListNotations.", "Open Scope string_scope.", ""]
     L.append("Definition attrs : list (string * string) :=\n  [" + ";\n   ".join(f"({q(n)}, {q(d)})" for n, d in r["attrs"]) + "].\n")
     L.append(f"Definition per_module_options : list string :=\n  {slist(r['per_module'])}.\n")
     L.append(f"Definition options_affecting_cache : list string :=\n  {slist(r['affecting'])}.\n")
@@ -353,6 +394,13 @@ def generate() -> dict[str, str]:
     L.append(f"Definition snapshot_normalised : list string := {slist(r['snapshot_normalised'])}.")
     L.append(f"Definition fcm_compares : bool := {str(r['fcm_compares']).lower()}.")
     L.append(f"Definition fcm_lax : list string := {slist(r['fcm_lax'])}.")
+    L.append("(* import priorities (mypy/build.py) and the priorities whose suppressed dependencies are recorded by State.suppressed_deps_opts *)")
+    for nm, v in r["priorities"].items():
+        L.append(f"Definition {nm.lower()} : nat := {v}.")
+    cmp_ = {"!=": "negb (Nat.eqb p {b})", "==": "Nat.eqb p {b}", "<": "Nat.ltb p {b}", "<=": "Nat.leb p {b}", ">": "Nat.ltb {b} p", ">=": "Nat.leb {b} p"}[r["sdo_op"]]
+    L.append(f"Definition sdo_covered (p : nat) : bool := {cmp_.format(b=r['sdo_bound'].lower())}.   (* source: <priority> {r['sdo_op']} {r['sdo_bound']} *)")
+    L.append(f"Definition import_option_names : list string := {slist(r['import_option_names'])}.")
+    L.append(f"Definition is_fresh_escape : list string := {slist(r['is_fresh_escape'])}.")
     L.append(f"Definition cache_dir_reads : list string := {slist(r['cache_dir_reads'])}.")
     L.append(f"Definition store_reads : list string := {slist(r['store_reads'])}.")
     L.append("Definition errors_method_reads : list (string * list string) :=\n  [" + ";\n   ".join(f"({q(n)}, {slist(v)})" for n, v in r["errors_method_reads"]) + "].")
